@@ -38,7 +38,7 @@ def cases(tier, seed):
             spec = M.random_spec(rng, half=half, nx=int(rng.integers(2, 4)), ny=int(rng.integers(2, 7)), odd_full=False)
             spec["offset"] = [float(np.round(s * rng.uniform(3, 8), 3)), 0.0, float(np.round(s * rng.uniform(0.3, 1.5), 3))]
             sd = dict(name="s%d" % s, symmetry=symc, mesh=spec, with_viscous=bool(rng.integers(2)), with_wave=bool(rng.integers(2)), CL0=0.0, CD0=0.0,
-                      k_lam=float(rng.choice([0.0, 0.05, 0.5])))
+                      k_lam=float(rng.choice([0.0, 0.05, 0.5, 1.0])))
             if mode == "ground":
                 sd["groundplane"] = True
             surfs.append(sd)
